@@ -36,6 +36,19 @@ func Harness_C03_and_groups() {
 	verifCover("end")
 }
 
+func Harness_C03_external_types() {
+	a := verifInt("a")
+	w := mkWithExt(a)
+	// the documented shapes: an opaque type by its own name, a parametrised one instantiated, dict.Dict, curried function types as Go funcs
+	var o Opaque = w.O
+	var h Holder2[int] = w.H
+	var f func([]int, int) int = w.F
+	verifAssert(opaqueVal(o) == a*3 && h.Held == a && f(nil, 2) == a+2, "record fields of external, parametrised and function types")
+	verifAssert(useWithExt(w) == (a*3+1)+(a+1)+2+a+(a+5), "generic higher-order foreign functions called with lambdas; tuple result destructured")
+	verifAssert(regWithExt("k", a) && len(topDict.Fdict) == 1, "a top-level variable initialised by a call with type arguments")
+	verifCover("end")
+}
+
 func Harness_C03_unions() {
 	x := verifInt("x")
 	var u U = U_P{Value: x}
